@@ -336,6 +336,11 @@ class Buildable(Generic[T], metaclass=abc.ABCMeta):
   def __getattr__(self, name: str):
     """Get parameter with given ``name``."""
     value = self.__arguments__.get(name, _UNSET_SENTINEL)
+    if value is not _UNSET_SENTINEL:
+      # Positional-only and variadic positional arguments are stored under
+      # their index, so a value stored under the *name* of such a parameter is a
+      # `**kwargs` entry (`f(1, a=2)` for `def f(a, /, **kwargs)`).
+      return value
     # Check that positional-only arguments cannot be accessed by keywords.
     param = self.__signature_info__.parameters.get(name)
     if param is not None and (
